@@ -4,7 +4,23 @@ package p2p
 
 import (
 	comm "github.com/ChainSafe/sygma-relayer/comm"
+	"github.com/libp2p/go-libp2p/core/network"
+	"github.com/libp2p/go-libp2p/core/peer"
 )
+
+// VerifNewCommunication builds a Libp2pCommunication without a libp2p host: the real subscription manager and the
+// real stream manager (the host is only used by Broadcast / NewCommunication's stream handler registration).
+func VerifNewCommunication() Libp2pCommunication {
+	return Libp2pCommunication{
+		SessionSubscriptionManager: NewSessionSubscriptionManager(),
+		streamManager:              NewStreamManager(),
+	}
+}
+
+// VerifAddStream registers an outbound stream of a session, as sendMessage does.
+func (c Libp2pCommunication) VerifAddStream(sessionID string, p peer.ID, s network.Stream) {
+	c.streamManager.AddStream(sessionID, p, s)
+}
 
 // VerifSub is one retained leaf entry of subscribersMap.
 type VerifSub struct {
